@@ -217,6 +217,20 @@ theorem C10_starving_process_is_silent {σ : Type} (fuel : Nat) (s : Sys σ ℝ)
   · simp only [hg, if_true, h1]; exact ⟨_, rfl, rfl, rfl⟩
   · simp only [hg, if_false]; exact ⟨_, rfl, rfl, rfl⟩
 
+/-- **Frames that trickle in while the audio thread starves inside one `process` call are lost** (the clause
+    "playback continues from where it stopped to within a frame" is false at frame granularity). The
+    "fewer than 2 slots ⇒ silence, consume nothing" test is made once per `process` call, before the loop. Inside
+    the loop, with the ring run dry at an integer position and unit step: if the decoder thread delivers exactly one
+    entry before each output frame — any number of entries, any frames — every output frame is (shaded) silence and
+    every one of those entries is consumed as a "previous" frame without ever being heard; the ring is empty again at
+    the end. Reproduced on the real code with a slow decoder and free-running threads (`rt slow …` of suite
+    `decthread`: e.g. "heard 249 after 240": a whole 8-frame packet gone). -/
+theorem C10_frames_lost_while_starving {σ : Type} (fuel : Nat) (hfuel : 2 ≤ fuel) (t dt : ℝ) (s : Sys σ ℝ)
+    (hstarved : Starved s dt) (ys : List (TimestampedFrame ℝ)) :
+    ∃ s', trickle fuel t dt ys s = .ok (s', List.replicate ys.length (s.shade t Frame.zero)) ∧ s'.ring.items = [] := by
+  obtain ⟨s', h1, h2⟩ := trickle_all_lost fuel hfuel t dt ys s hstarved
+  exact ⟨s', h1, h2.empty⟩
+
 /-! ### non-vacuity -/
 
 /-- a reachable state in which the sound is Stopped while the thread still has all three steps to go: the hypotheses
@@ -228,6 +242,14 @@ example : ∃ l : St Unit ℝ, IsStopped l.sys ∧ l.pc.rank = 3 :=
      have := StaticSound.markStopped_isStopped (spinSys (Ring.new errorBufferCapacity) true).core
      exact ⟨by simp [Psm.playbackState, this.1], this.2⟩,
    rfl⟩
+
+/-- a starved state exists (the looping sound with its ring run dry, rate 1 on a device at the sound's rate) -/
+example : Starved (loopSys [] ds0) 1 :=
+  { empty := rfl
+    frac := by simp [loopSys]
+    notEnd := rfl
+    unit := fun t => by
+      simp [Sys.fracStep, loopSys, fmax_real, Parameter.new, Parameter.interpolatedValue, tw64, lerp64] }
 
 /-- the fresh looping sound is `Fresh`: the invariant theorems apply to it -/
 example : Fresh (loopSys [⟨Frame.zero, 0⟩] ds0) := ⟨rfl, rfl, rfl, rfl⟩
